@@ -612,7 +612,7 @@ func W1N(sink Sink) {
 // position (seeded change C02r3-m2: a backslash right after a complete unicode escape in a
 // LATER array element).
 func W1S(sink Sink) {
-	esc := []string{`\n`, `\"`, `\\`, `\/`, `\b`, `\t`, `\u00e9`, `\u0041`, `\ud83d\ude00`, `\ud800`, `\uDFFF`, `\ue000`, `\udbff`, `\udbff\udfff`, `\ud800\udc00`, `]`, `}`, `[`, `{`, `,`, `:`} // the last six: structural bytes as string content next to escapes (seeded change C08r5-m2)
+	esc := []string{`\n`, `\"`, `\\`, `\/`, `\b`, `\t`, `\f`, `\r`, `\u00e9`, `\u0041`, `\ud83d\ude00`, `\ud800`, `\uDFFF`, `\ue000`, `\udbff`, `\udbff\udfff`, `\ud800\udc00`, `]`, `}`, `[`, `{`, `,`, `:`} // the last six: structural bytes as string content next to escapes (seeded change C08r5-m2)
 	c := &h.Case{Family: "W1S"}
 	c.DescFn = func(c *h.Case) string {
 		return fmt.Sprintf("escape pair (%q,%q) shape %d position %d", esc[c.P[0]], esc[c.P[1]], c.P[2], c.P[3])
